@@ -2,7 +2,7 @@ use std::io;
 use std::io::Read;
 
 use anyhow::{Context, Result};
-use clap::{App, Arg};
+use clap::{App, AppSettings, Arg};
 use serde_json;
 use serde_json::Value;
 
@@ -10,6 +10,9 @@ use jsonlogic_rs;
 
 fn configure_args<'a, 'b>(app: App<'a, 'b>) -> App<'a, 'b> {
     app.version(env!("CARGO_PKG_VERSION"))
+        // The only JSON texts starting with a hyphen are negative numbers;
+        // they are values, not flags.
+        .setting(AppSettings::AllowNegativeNumbers)
         .author("Matthew Planchard <msplanchard@gmail.com>")
         .about(
             "Parse JSON data with a JsonLogic rule.\n\
